@@ -8,8 +8,9 @@ WT="/tmp/seedwt-$$"
 cp "evidence/$PROP.json" "/tmp/evidence-$PROP.keep.$$" 2>/dev/null
 git -C /repo worktree add -q --detach "$WT" || exit 9
 git -C "$WT" apply "$(realpath "$P")" || { git -C /repo worktree remove --force "$WT"; exit 9; }
-VERIF_REPO="$WT" ./check "$PROP" --tier "$TIER" > /tmp/seedtest.out 2>&1; RC=$?
+VERIF_REPO="$WT" ./check "$PROP" --tier "$TIER" > /tmp/seedtest.$$.out 2>&1; RC=$?
 git -C /repo worktree remove --force "$WT"
 [ -f "/tmp/evidence-$PROP.keep.$$" ] && mv "/tmp/evidence-$PROP.keep.$$" "evidence/$PROP.json"
-tail -25 /tmp/seedtest.out | cut -c1-400
+tail -25 /tmp/seedtest.$$.out | cut -c1-400
+rm -f /tmp/seedtest.$$.out
 echo "exit=$RC"
